@@ -239,7 +239,8 @@ impl Maps {
         if b[0] == 0xFA && b[1] == 0xCE {
             return -(1000 + (b[2] as i64) * 100 + b[3] as i64);
         }
-        -1
+        // any other value nobody in the world has: distinct ids for distinct values (with 24 bits of the hash)
+        -(100_000 + (((b[0] as i64) << 16) | ((b[1] as i64) << 8) | b[2] as i64))
     }
 }
 
